@@ -121,8 +121,10 @@ class LFDA(MahalanobisMixin, TransformerMixin):
       # classwise affinity matrix
       dist = pairwise_distances(Xc, metric='l2', squared=True)
       # distances to k-th nearest neighbor
-      k = min(k, nc - 1)
-      sigma = np.sqrt(np.partition(dist, k, axis=0)[:, k])
+      # (capped for THIS class only: a small class must not lower k for the
+      # classes that follow it)
+      kc = min(k, nc - 1)
+      sigma = np.sqrt(np.partition(dist, kc, axis=0)[:, kc])
 
       local_scale = np.outer(sigma, sigma)
       with np.errstate(divide='ignore', invalid='ignore'):
